@@ -1,5 +1,6 @@
 """C01 — Every submitted task runs exactly once (structural necessary conditions)."""
 from rules.common import start
+from rules import wave3
 from rules import wave2
 from rules import queues, pool, hookrules
 from rules.C03 import rmw_rule
@@ -30,6 +31,8 @@ def run(tier):
     hookrules.grow_rule(run, f, "C01-WORKER-FOR-WAITING-TASK")
     # clauses added for the wave-2 seeds (rules/wave2.py; DESIGN 12a)
     wave2.grow_refusal_rule(run, f, "C01-GROW-REFUSAL")
+    # clauses added for the wave-2 seeds (rules/wave2.py; DESIGN 12a)
+    wave3.container_api_rule(run, f, "C01-CONTAINER-API")
     return run.finish()
 
 
